@@ -46,6 +46,9 @@ Truthy(v) ==
       [] v.t = "str"  -> v.s # <<>>
       [] v.t = "list" -> v.xs # <<>>
       [] v.t = "map"  -> v.ks # <<>>
+      \* a defined or sized Go type (type Flag bool, int8, float32 ...) is as truthy as its underlying value
+      [] v.t = "named" -> (CASE v.u.t = "bool" -> v.u.b [] v.u.t = "int" -> v.u.i # 0 [] v.u.t = "dec" -> v.u.m # 0
+                             [] v.u.t = "str" -> v.u.s # <<>> [] OTHER -> TRUE)
       [] OTHER        -> TRUE
 
 \* Printed form where the property fixes one (null -> "", int -> decimal digits,
@@ -54,6 +57,7 @@ Truthy(v) ==
 \* [t |-> "gostr", kind, s]: a Go value that is not a string but has a text form: kind in
 \* bytes ([]byte) | named (type T string) | stringer (String() method) | err (error)
 VGo(kind, s) == [t |-> "gostr", kind |-> kind, s |-> s]
+VN(u, kind) == [t |-> "named", u |-> u, kind |-> kind]   \* kind: def | i8 | i64 | u16 | u64 | f32
 \* exact decimals m * 10^-e: canonical text has no trailing zeros, no "-0"
 RECURSIVE Pow10(_)
 Pow10(k) == IF k = 0 THEN 1 ELSE 10 * Pow10(k - 1)
@@ -78,6 +82,20 @@ RoundDec(m, e, p, method) ==
                      [] method = "ceil" -> IF r > 0 THEN q + 1 ELSE q
                      [] OTHER -> IF 2 * r > scale THEN q + 1 ELSE IF 2 * r < scale THEN q ELSE (IF m >= 0 THEN q + 1 ELSE q)
          IN IF p >= 0 THEN [m |-> q2, e |-> p] ELSE [m |-> q2 * Pow10(-p), e |-> 0]
+\* number_format: the exact decimal m * 10^-e rounded to p >= 0 places, digits grouped in threes from the right.
+\* Which way an exact tie goes and whether a negative number that rounds to zero keeps its sign is not stated
+\* by any property: NumFmtDetermined is false there and the generators drop the case.
+RECURSIVE GroupDigits(_, _)
+GroupDigits(ds, ts) == IF Len(ds) <= 3 THEN ds
+                       ELSE GroupDigits(SubSeq(ds, 1, Len(ds) - 3), ts) \o ts \o SubSeq(ds, Len(ds) - 2, Len(ds))
+NumFmtTie(m, e, p) == p < e /\ 2 * (m % Pow10(e - p)) = Pow10(e - p)
+NumFmtScaled(m, e, p) == IF p >= e THEN m * Pow10(p - e) ELSE RoundDec(m, e, p, "common").m
+NumFmtDetermined(m, e, p) == ~NumFmtTie(m, e, p) /\ ~(m < 0 /\ NumFmtScaled(m, e, p) = 0)
+NumFmtText(m, e, p, dp, ts) ==
+    LET q == NumFmtScaled(m, e, p)
+        a == IF q < 0 THEN -q ELSE q
+    IN (IF q < 0 THEN <<45>> ELSE <<>>) \o GroupDigits(NatDigits(a \div Pow10(p)), ts)
+       \o (IF p = 0 THEN <<>> ELSE dp \o PadDigits(NatDigits(a % Pow10(p)), p))
 Printable(v) == v.t \in {"null", "int", "str", "gostr", "dec"}
 TextOf(v) ==
     CASE v.t = "null" -> <<>>
